@@ -7,6 +7,18 @@ VERIF = os.path.dirname(os.path.dirname(os.path.abspath(__file__)))
 props = [json.loads(l) for l in open(os.path.join(VERIF, "properties.jsonl"))]
 
 CLAIMED = {
+    "C17": dict(
+        text="Machine-checked proofs (Coq): CalculateBackoff regenerated from retry.go over exact rationals stays within +-Jitter of "
+             "min(MaxBackoff, Initial*Multiplier^n) and is never negative for every attempt number, every random draw and every non-negative configuration; "
+             "the regenerated CircuitBreaker.Call refines a reference automaton that opens at exactly the threshold, rejects without invoking inside the "
+             "cooldown and closes on the first success; the hand-written loop model of RetryWithBackoff never exceeds MaxAttempts, never invokes after "
+             "success/permanent error/cancellation and waits the backoffs of attempts 0,1,2,...; the acquisition-round constants are regenerated. The real "
+             "functions run under virtual time (testing/synctest) and are compared with the generated/model functions and with the executable specification.",
+        design_ref="5.17",
+        note="Trusted: Coq kernel, go2coq, extraction, OCaml glue (incl. shortcuts for attempt numbers > 200), exact-rational abstraction of float64 (compared with "
+             "slack 2^-40 relative + 2 ns), retry_loop hand model (tied by the virtual-time harness). No axioms. Round behaviour in elections is observed by the simulator (C17's last sentence).",
+        technique="Coq proof about translator-regenerated Gallina (Q arithmetic, breaker automaton) + hand model of the retry loop tied by differential execution under virtual time",
+    ),
     "C15": dict(
         text="Machine-checked proofs (Coq), for every error value of an inductive error algebra (any nesting depth, any texts), about the two classifiers "
              "regenerated from error.go on every run: never both, nil neither, every non-nil error exactly one, context/deadline/TimeoutError causes at any "
